@@ -166,7 +166,64 @@ func (g *opGen) literal(t *ast.Type) (lit string, val interface{}) {
 		e := hx.Pick(g.r, d.EnumValues).Name
 		return e, e
 	}
+	if d := g.schema.Types[t.NamedType]; d != nil && d.Kind == ast.InputObject {
+		return g.inputLiteral(d, 0)
+	}
 	return "null", nil
+}
+
+// inputLiteral draws an input-object literal; leaves may be variables (nested declarations).
+func (g *opGen) inputLiteral(d *ast.Definition, depth int) (string, interface{}) {
+	var parts []string
+	val := map[string]interface{}{}
+	for _, f := range d.Fields {
+		if g.r.Chance(1, 3) {
+			continue
+		}
+		fd := g.schema.Types[f.Type.Name()]
+		if fd != nil && fd.Kind == ast.InputObject {
+			if depth >= 1 {
+				continue
+			}
+			l, v := g.inputLiteral(fd, depth+1)
+			parts = append(parts, f.Name+": "+l)
+			val[f.Name] = v
+			continue
+		}
+		if f.Type.Elem != nil {
+			// list field: elements literal or variable
+			n := g.r.Range(0, 2)
+			var ls []string
+			vs := []interface{}{}
+			for i := 0; i < n; i++ {
+				l, v := g.leafOrVar(f.Type.Elem)
+				ls = append(ls, l)
+				vs = append(vs, v)
+			}
+			parts = append(parts, f.Name+": ["+strings.Join(ls, ", ")+"]")
+			val[f.Name] = vs
+			continue
+		}
+		l, v := g.leafOrVar(f.Type)
+		parts = append(parts, f.Name+": "+l)
+		val[f.Name] = v
+	}
+	g.features["input-object"] = true
+	return "{" + strings.Join(parts, ", ") + "}", val
+}
+
+// leafOrVar: a scalar literal, or a fresh variable declared with exactly this type
+func (g *opGen) leafOrVar(t *ast.Type) (string, interface{}) {
+	lit, val := g.literal(t)
+	if g.o.Variables && g.r.Chance(1, 3) {
+		vn := fmt.Sprintf("v%d", g.nvar)
+		g.nvar++
+		g.varDefs = append(g.varDefs, "$"+vn+": "+t.String())
+		g.vars[vn] = val
+		g.features["nested-variable"] = true
+		return "$" + vn, val
+	}
+	return lit, val
 }
 
 func (g *opGen) args(fd *ast.FieldDefinition) string {
@@ -197,6 +254,10 @@ func (g *opGen) args(fd *ast.FieldDefinition) string {
 				}
 			} else {
 				g.vars[vn] = val
+				if !a.Type.NonNull && g.r.Chance(1, 6) {
+					g.vars[vn] = nil // an explicit null is a value: it must be forwarded
+					g.features["null-variable"] = true
+				}
 			}
 			g.varDefs = append(g.varDefs, def)
 			g.features["variable"] = true
